@@ -1422,7 +1422,7 @@ fn peek_integer_or_no_literal(input: ParseStream) -> bool {
 
 // Types, paths and where predicates are handed to syn as a whole: a literal token syn 1 predates (c"..") in there would make
 // it panic, and cannot be meant anyway. Looks at the tokens up to the first '|' on this level (all of them if there is none),
-// into parentheses, but not into brackets and braces, which hold instructions and expressions.
+// into parentheses and braces (tuple types, const arguments), but not into brackets, which hold instructions with expressions.
 fn check_literals_in_type_position(input: ParseStream, up_to_bar: bool) -> Result<()> {
     fn scan(mut cursor: syn::buffer::Cursor, up_to_bar: bool) -> Option<Span> {
         while let Some((tt, next)) = cursor.token_tree() {
@@ -1430,10 +1430,9 @@ fn check_literals_in_type_position(input: ParseStream, up_to_bar: bool) -> Resul
                 proc_macro2::TokenTree::Punct(p) if up_to_bar && p.as_char() == '|' => return None,
                 proc_macro2::TokenTree::Literal(lit) if !lit.to_string().starts_with(|c: char| c.is_ascii_digit() || c == '"' || c == '\'' || c == 'b' || c == 'r' || c == '-') => return Some(lit.span()),
                 proc_macro2::TokenTree::Group(_) => {
-                    if let Some((inside, _, _)) = cursor.group(proc_macro2::Delimiter::Parenthesis) {
-                        if let Some(span) = scan(inside, false) {
-                            return Some(span);
-                        }
+                    let inside = cursor.group(proc_macro2::Delimiter::Parenthesis).or_else(|| cursor.group(proc_macro2::Delimiter::Brace)).or_else(|| cursor.group(proc_macro2::Delimiter::None));
+                    if let Some(span) = inside.and_then(|x| scan(x.0, false)) {
+                        return Some(span);
                     }
                 }
                 _ => (),
